@@ -18,8 +18,9 @@
 (*         body / error variant and argument), whatever the chunking,      *)
 (*         Pendings and drop/re-create points were                         *)
 (*       - on success, bytes consumed = total reported                     *)
-(*  C03  - (buffer discipline) header reads offer one byte; body reads     *)
-(*         offer a slice of the body buffer, never past its end; when the  *)
+(*  C03  - (buffer discipline) body reads offer a slice of the body buffer, *)
+(*         never past its end (how the header is buffered is free); when   *)
+(*         the                                                             *)
 (*         body is handed out, the transport has written all of it         *)
 (*       - no spinning: polls <= Pendings + 1; the run ends                *)
 (***************************************************************************)
@@ -56,7 +57,6 @@ Read(e) ==
     /\ open
     /\ e.pos = pos /\ e.n <= e.cap
     /\ (Prop = "C05" => pos + e.cap <= MinFrameEnd(pos))
-    /\ (Prop = "C03" => IF e.off < 0 THEN e.cap = 1 ELSE TRUE)
     /\ pos' = pos + e.n
     /\ last' = e.ans
     /\ cov' = IF e.off >= 0 /\ e.off <= cov /\ e.off + e.n > cov THEN e.off + e.n ELSE cov
